@@ -197,6 +197,72 @@ theorem serialize_doc (m : ImgState) (cd : PyVal) (hcd : m.compose.serialize = .
     fun va h1 ac h2 e h3 => hi _ (mem_all_of_entry h1 h2 h3)
   simp only [serialize, cur_header_valid, hcd, serializeCells_eq m.cells [] hvalid, bind, Except.bind]
 
+/-! ### empty buckets
+
+A `(variant, arch)` set can be emptied through the public containers (`images[v][a].discard(img)`, `.clear()`,
+`del images[v][a]`), leaving an empty set or a variant without arches in `self.images`.  The model's cells may be
+empty lists; `triples` (the filings) does not see them, and neither does the writer: the `setdefault` that creates
+the output list sits inside the per-image loop. -/
+
+/-- **the document is a function of the filings**: two manifests with the same filings and the same compose section
+— e.g. one with emptied buckets and the one without them — are written to the same document -/
+theorem C02_document_of_filings (m₁ m₂ : ImgState) (ht : triples m₁.cells = triples m₂.cells) (hc : m₁.compose = m₂.compose)
+    (cd : PyVal) (hcd : m₁.compose.serialize = .ok cd) (hi : ∀ i ∈ m₁.cells.all, i.validate = .ok ()) :
+    (serialize m₁).2 = (serialize m₂).2 := by
+  have hi₂ : ∀ i ∈ m₂.cells.all, i.validate = .ok () := by
+    intro i h; apply hi; rw [all_eq] at h ⊢; rw [ht]; exact h
+  rw [serialize_doc m₁ cd hcd hi, serialize_doc m₂ cd (hc ▸ hcd) hi₂, ht]
+
+/-- **empty cells are not written**: the written table has a key for a variant iff the variant has a filing, an arch
+key under it iff that (variant, arch) has a filing, and no cell of the table is an empty list.  (A manifest read back
+therefore has no empty bucket; on filings — what `C02_readback_partial` is about — nothing is gained or lost.) -/
+theorem C02_empty_cells_not_written (cs : Cells) :
+    (∀ v, v ∈ (outFold (triples cs) []).map (·.1) ↔ ∃ t ∈ triples cs, t.1 = v)
+    ∧ (∀ v a, a ∈ (archAt (outFold (triples cs) []) v).map (·.1) ↔ ∃ t ∈ triples cs, t.1 = v ∧ t.2.1 = a)
+    ∧ (∀ va ∈ outFold (triples cs) [], va.2 ≠ [] ∧ ∀ al ∈ va.2, al.2 ≠ []) := by
+  have hN : OutNodup (outFold (triples cs) []) := outFold_nodup _ [] ⟨List.nodup_nil, fun _ h => by cases h⟩
+  have hk : ∀ v a, a ∈ (archAt (outFold (triples cs) []) v).map (·.1) ↔ ∃ t ∈ triples cs, t.1 = v ∧ t.2.1 = a := by
+    intro v a
+    rw [archKeys_outFold]
+    simp [archAt]
+  refine ⟨fun v => by rw [keys_outFold]; simp, hk, ?_⟩
+  intro va hva
+  obtain ⟨v, as⟩ := va
+  have hat := archAt_of_mem hN.1 hva
+  have hcell : ∀ al ∈ as, al.2 ≠ [] := by
+    intro al hal
+    obtain ⟨a, l⟩ := al
+    have hl := cellIn_of_mem (hN.2 _ hva) hal
+    have hkey : a ∈ (archAt (outFold (triples cs) []) v).map (·.1) := by
+      rw [hat]; exact List.mem_map.mpr ⟨(a, l), hal, rfl⟩
+    obtain ⟨t, ht, hv, ha⟩ := (hk v a).mp hkey
+    have hc := cell_outFold (triples cs) [] v a
+    rw [hat] at hc
+    simp only at hl
+    rw [hl] at hc
+    have hnil : cellIn (archAt ([] : OutCells) v) a = [] := by simp [archAt, cellIn]
+    rw [hnil] at hc
+    have hmem : t.2.2.dict ∈ dictsFor (triples cs) v a := by
+      simp only [dictsFor, List.mem_map, List.mem_filter]
+      exact ⟨t, ⟨ht, by simp [hv, ha]⟩, rfl⟩
+    intro hempty
+    simp only at hempty
+    rw [hempty] at hc
+    have := (cellFold_perm (dictsFor (triples cs) v a)).mem_iff.mpr hmem
+    rw [← hc] at this
+    cases this
+  refine ⟨?_, hcell⟩
+  -- the variant key exists, so it has a filing, so it has an arch key
+  intro hempty
+  simp only at hempty
+  have hkv : v ∈ (outFold (triples cs) []).map (·.1) := List.mem_map.mpr ⟨(v, as), hva, rfl⟩
+  rw [keys_outFold] at hkv
+  rcases hkv with h | ⟨t, ht, hv⟩
+  · cases h
+  · have := (hk v t.2.1).mpr ⟨t, ht, hv, rfl⟩
+    rw [hat, hempty] at this
+    cases this
+
 /-- the normalised compose section is written exactly as the original -/
 theorem compose_serialize_norm (c : Compose) (h : c.validate = .ok ()) : (composeNorm c).serialize = c.serialize := by
   obtain ⟨hn, hv⟩ := norm_valid c h
@@ -356,6 +422,10 @@ example : ∀ i ∈ wGood.cells.all, i.validate = .ok () ∧ ProperInts i := by
 example : errIs (match (serialize wGood).2 with | .ok doc => deserialize doc | .error _ => .error .other) .valueError = false := by
   decide +kernel
 
+/-- a manifest with an emptied cell and a variant without arches has the filings of the pruned manifest, hence
+(`C02_document_of_filings`) the same document -/
+example : triples ([(L "Server", [(L "x86_64", [(0, wA)]), (L "i386", [])]), (L "Client", [])] : Cells)
+    = triples [(L "Server", [(L "x86_64", [(0, wA)])])] := rfl
 example : DistinctPaths wGood.cells := distinctPaths_of_pairwise _ (by decide +kernel)
 /-- the model's own cycle on a one-image manifest: the second text equals the first -/
 example : let w : ImgState := { compose := wCompose, cells := [(L "Server", [(L "x86_64", [(0, wC)])])] }
